@@ -18,6 +18,7 @@ package core
 
 import (
 	"fmt"
+	"strings"
 	"sync"
 )
 
@@ -320,6 +321,8 @@ type RuleDone struct {
 }
 
 func OneShotSchedule(schedule string) bool {
+	// The crons trim the schedule before looking at it.
+	schedule = strings.TrimSpace(schedule)
 	if 0 == len(schedule) {
 		return false
 	}
